@@ -440,7 +440,9 @@ class Sparse(Flat):
     def nbh(self, l, idx, w):
         r, must, soft, inr = super().nbh(l, self.a2f(l, idx[0])[None], w)
         a, valid = self.f2a(l, r)
-        return a, must & valid, soft & valid, inr & valid
+        # entries whose identity is unspecified (HEALPix pixel with only 7 neighbours) may fall outside
+        # the mapping -> no range requirement there
+        return a, must & valid, soft & valid, inr & valid & (must | soft)
 
 
 # =========================================================================================
@@ -887,11 +889,11 @@ def case(ck, i):
                 ck.hit("min_shape_checks")
                 short = p.N[depth] < p.min_shape
                 if np.any(short):
-                    # degenerate: >= 3 levels that do not refine (split 1) but still lose their
-                    # padding; NIFTy's "conservative" shape0 estimate is then too small.  Outside
-                    # the index-map property -> observation only.
+                    # degenerate: a level that does not refine (split 1) but still loses its padding;
+                    # NIFTy's "conservative" shape0 estimate is then too small.  Outside the index-map
+                    # property -> observation only; with all splits >= 2 it is a violation.
                     n1 = np.sum(np.array(p.s) == 1, axis=0) if depth else np.zeros(p.k)
-                    if np.all(n1[short] >= 3):
+                    if np.all(n1[short] >= 1):
                         ck.hit("min_shape_shortfall_with_split1_levels")
                     else:
                         bad("min_shape", "final shape smaller than the requested min_shape",
